@@ -235,6 +235,10 @@ func baseObj(r *rng, cnr cid.ID, owner user.ID, payload []byte) *object.Object {
 
 // newUniverse builds nReg regular objects (some expiring), nEC EC parts, nLock locks
 // and nTS tombstones over one container.
+// forceFirst makes the first lock and the first tombstone target object 0 (scripted
+// scenarios of the C08 generator).
+var forceFirst bool
+
 func newUniverse(r *rng, nReg, nEC, nLock, nTS int, maxEpoch int) *universe {
 	u := &universe{byID: map[oid.ID]int{}}
 	copy(u.cnr[:], r.bytes(32))
@@ -278,6 +282,9 @@ func newUniverse(r *rng, nReg, nEC, nLock, nTS int, maxEpoch int) *universe {
 			addAttr(o, object.AttributeExpirationEpoch, strconv.FormatInt(x.Exp, 10))
 		}
 		x.Target = r.intn(nData)
+		if forceFirst && i == 0 {
+			x.Target = 0
+		}
 		o.AssociateLocked(u.objs[x.Target].obj.GetID())
 		x.obj = o
 		add(x)
@@ -298,6 +305,9 @@ func newUniverse(r *rng, nReg, nEC, nLock, nTS int, maxEpoch int) *universe {
 			x.Target = nLockEnd + r.intn(i)
 		default:
 			x.Target = r.intn(nData)
+		}
+		if forceFirst && i == 0 {
+			x.Target = 0
 		}
 		o.AssociateDeleted(u.objs[x.Target].obj.GetID())
 		x.obj = o
